@@ -29,7 +29,7 @@ EXPLANATION = (
     "elements below the root (64 shapes, repetitions in rotation, names and types unknown, arena hooked), "
     "returns exactly the tree's leaves in order with the specification's definition / repetition levels, "
     "requests the leaf arrays with that many entries and writes nothing past them - whatever walk is behind "
-    "it (recursive, iterative, renamed). (10) the schema elements of a footer - names, also empty ones - come back from the parser as written (round-trip probe of FileMetaData, second pass with every string empty). (11) carquet_reader_get_column, executed on a reader whose schema arrays hold marker levels (5 / 3) and a marker type length (7) for the requested leaf while the leaf's own element is a plain OPTIONAL one, hands out a column reader carrying the markers: the levels every page decode is sized and interpreted with are the ones the schema walk computed over the leaf's ancestors. Decides these clauses; leaf order and counts for trees beyond the "
+    "it (recursive, iterative, renamed). (10) the schema elements of a footer - names, also empty ones - come back from the parser as written (round-trip probe of FileMetaData, second pass with every string empty). (12) carquet_schema_add_column / add_group executed on a builder whose next slot still holds stale flags and values: the committed element has exactly the presence flags the call states (a refused call before it cannot lend it a logical type). (11) carquet_reader_get_column, executed on a reader whose schema arrays hold marker levels (5 / 3) and a marker type length (7) for the requested leaf while the leaf's own element is a plain OPTIONAL one, hands out a column reader carrying the markers: the levels every page decode is sized and interpreted with are the ones the schema walk computed over the leaf's ancestors. Decides these clauses; leaf order and counts for trees beyond the "
     "bound follow from (1) and (9) only by the per-node argument, not by execution.")
 
 FR = "src/reader/file_reader.c"
@@ -72,6 +72,8 @@ def run(ctx):
     ctx.clause("C17.8 an element's logical type is the one the file states: the LogicalType union tables equal the specification's")
     from ..rules import logicaltype
     nlt = logicaltype.check(ctx)
+    ctx.clause("C17.12 the schema builder commits elements that carry only what the call states: a slot's earlier contents (a refused add) do not leak into the next accepted column or group")
+    ctx.floor("C17 builder entry points probed on a dirty slot", _builder_slot_clean(ctx), 2)
     ctx.clause("C17.11 a column reader carries the per-leaf levels and type length the schema walk computed, not something derived from the leaf's element alone")
     ctx.floor("C17 column-reader level probes", _column_reader_levels(ctx), 1)
     ctx.clause("C17.10 the schema elements of a footer (names - empty ones included -, types, repetition, child counts) come back from the parser as the writer serialised them (round-trip probe of FileMetaData)")
@@ -93,10 +95,17 @@ def run(ctx):
     # compute_levels root
     cl = P.inlined(P.fn("compute_levels", FR), 2, keep=("traverse_schema_recursive",))    # a child-walk helper is expanded
     rc = cl.calls("traverse_schema_recursive")
-    okroot = len(rc) >= 1 and all(c_.args()[2].cv == 0 and c_.args()[3].cv == 0 for c_ in rc)
-    init1 = any(n.cv == 1 for n in cl.body.walk() if n.k in ("IntegerLiteral", "ImplicitCastExpr"))
-    ctx.ob("R5.spec", "root-start|%s:compute_levels" % FR, P.where(cl.body),
-           "the walk starts at element 1 with levels (0,0) (the root contributes nothing)", okroot and init1)
+    # the shape this reads - walk(schema, &index, def, rep) with literal levels - is one way of writing the start of the walk;
+    # when the levels travel in a struct or the signature differs, the clause is C17.9's (build_schema executed on every
+    # small tree): a verdict is given here only for the recognised shape
+    recognised = len(rc) >= 1 and all(len(c_.args()) >= 4 and c_.args()[2].cv is not None and c_.args()[3].cv is not None for c_ in rc)
+    if recognised:
+        okroot = all(c_.args()[2].cv == 0 and c_.args()[3].cv == 0 for c_ in rc)
+        init1 = any(n.cv == 1 for n in cl.body.walk() if n.k in ("IntegerLiteral", "ImplicitCastExpr"))
+        ctx.ob("R5.spec", "root-start|%s:compute_levels" % FR, P.where(cl.body),
+               "the walk starts at element 1 with levels (0,0) (the root contributes nothing)", okroot and init1)
+    else:
+        ctx.count("root_start_left_to_bounded_trees", 1)
 
     # ---- (2) sibling level expressions, exhaustively over the three repetition values. A level may be
     # stored by one expression or by several guarded stores (ternary vs if/else chain): the stores to the
@@ -767,3 +776,60 @@ def _column_reader_levels(ctx):
     except (sem.Inconclusive, KeyError) as ex:
         ctx.inconclusive("R5.agree", key, P.where(fn.body), what, "%s: %s" % (type(ex).__name__, ex))
         return 0
+
+
+def _builder_slot_clean(ctx):
+    """carquet_schema_add_column / carquet_schema_add_group, executed on a builder whose next element slot still holds what an
+    earlier, refused or rolled-back call left there (every scalar member 0x77, every flag set): the element the call
+    commits carries exactly what the call states - in particular no logical type, converted type, field id, scale or
+    precision that was not given."""
+    from ..rules import sem
+    from ..rules.skeleton import Ptr
+    P = ctx.P
+    SCF = "src/metadata/schema.c"
+    n = 0
+    so = sem.field_offsets(P, "carquet_schema")
+    eo = sem.field_offsets(P, "parquet_schema_element")
+    rec = P.record("parquet_schema_element")
+    esz = rec["size"]
+    flags = [f["n"] for f in rec["fields"] if f["n"].startswith("has_") and f.get("off") is not None]
+    for fname, args, stated in (("carquet_schema_add_column", lambda: [Ptr("s", 0, 1), Ptr("name", 0, 1), 1, 0, 1, 0], {"has_type", "has_repetition", "has_repetition_type"}),
+                                ("carquet_schema_add_group", lambda: [Ptr("s", 0, 1), Ptr("name", 0, 1), 1, -1], {"has_repetition", "has_repetition_type", "has_num_children"})):
+        fn = P.fn_opt(fname, SCF)
+        if fn is None:
+            continue
+        key = "builder-slot|%s:%s" % (SCF, fname)
+        what = "%s commits an element that carries only what the call states, whatever the slot held before (stale flags and values from a refused call)" % fname
+        try:
+            heap0 = {("s", so["num_elements"]): 3, ("s", so["capacity"]): 16, ("s", so["num_leaves"]): 2,
+                     ("s", so["elements"]): Ptr("els", 0, esz), ("s", so["leaf_indices"]): Ptr("li", 0, 4),
+                     ("s", so["max_def_levels"]): Ptr("mdl", 0, 2), ("s", so["max_rep_levels"]): Ptr("mrl", 0, 2),
+                     ("els", eo["num_children"]): 2}
+            for f in rec["fields"]:
+                t = f.get("t") or ""
+                if f.get("off") is not None and "*" not in t and "struct" not in t and "union" not in t and "[" not in t:
+                    heap0[("els", 3 * esz + f["off"] // 8)] = 1 if f["n"].startswith("has_") else 0x77
+            ret, ev, heap = sem.run(P, fn, args(), heap0=heap0, single=True, max_forks=64, budget=300000, inline_depth=3,
+                                    hooks={"strdup": lambda ev, a, it: Ptr("dup", 0, 1), "realloc": lambda ev, a, it: a[0],
+                                           "carquet_arena_strdup": lambda ev, a, it: Ptr("dup", 0, 1)})
+            if fname.endswith("add_column") and ret != 0:
+                raise sem.Inconclusive("returns %r" % (ret,))
+            if heap.get(("s", so["num_elements"])) != 4:
+                raise sem.Inconclusive("the call did not commit an element (num_elements %r)" % heap.get(("s", so["num_elements"])))
+            zs = set()
+            for zb, zl, zh in heap.get(("\0zeroed", 0), ()):
+                if zb == "els":
+                    zs |= set(range(zl, zh))
+            stale = []
+            for fl in flags:
+                v = heap.get(("els", 3 * esz + eo[fl]))
+                if v is None and (3 * esz + eo[fl]) in zs:
+                    v = 0
+                if fl not in stated and v not in (0, None) and not isinstance(v, type(None)):
+                    stale.append(fl)
+            n += 1
+            ctx.ob("R5.agree", key, P.where(fn.body), what + " (%d presence flags examined)" % len(flags), not stale,
+                   "" if not stale else "the committed element still says %s, which the call did not state" % ", ".join(stale[:5]))
+        except (sem.Inconclusive, KeyError) as ex:
+            ctx.inconclusive("R5.agree", key, P.where(fn.body), what, "%s: %s" % (type(ex).__name__, ex))
+    return n
